@@ -750,6 +750,30 @@ def add_trait(draw, prog, name="DvTrait", disable_for=None, options=False):
     ir.default_order(mod)
 
 
+DOC_KINDS = ["Struct", "StructField", "Enum", "EnumVariant", "EnumVariantField", "Trait", "FnInStruct", "FnInTypedef", "FnInEnum", "FnInTrait",
+             "DefaultFnInTrait", "Fn", "Mod", "Constant", "AssociatedConstantInEnum", "AssociatedConstantInTrait", "AssociatedConstantInStruct",
+             "Macro", "AssociatedTypeInEnum", "AssociatedTypeInTrait", "AssociatedTypeInStruct", "Typedef"]
+
+
+def add_rust_links(draw, prog, rate=4):
+    """`#[diplomat::rust_link(path, Kind)]` documentation links of every kind on types and methods (paths long enough for the kind:
+    crate, module, item and, for member kinds, member and field)"""
+    n = 0
+    for mod in prog["modules"]:
+        for it in mod["items"]:
+            targets = [it] + [m for impl in it.get("impls", []) for m in impl["methods"]]
+            for t in targets:
+                if draw(st.integers(0, rate - 1)) != 0:
+                    continue
+                kind = draw(st.sampled_from(DOC_KINDS))
+                path = "dvcrate::dvmod::DvItem::dv_member::dv_field" if draw(st.booleans()) else {"Mod": "dvcrate::dvmod"}.get(
+                    kind, "dvcrate::dvmod::DvItem" + ("::dv_member" if "In" in kind or kind in ("StructField", "EnumVariant", "EnumVariantField") else "") + ("::dv_field" if kind == "EnumVariantField" else ""))
+                extra = draw(st.sampled_from(["", "", ", hidden", ", compact"]))
+                t["attrs"] = list(t["attrs"]) + ["#[diplomat::rust_link(%s, %s%s)]" % (path, kind, extra)]
+                n += 1
+    return n
+
+
 def add_special_methods(draw, prog, rate=3):
     """the documented special-method attributes (`auto`: wherever the backend supports them): getter/setter pairs (instance or
     static, in either declaration order), constructor / named_constructor, stringifier, comparison, indexer, iterator/iterable.
